@@ -887,6 +887,8 @@ def p_resp_msg(eng, st, name, args, site, depth, call):
                 return []       # Default of a collection / Option is empty
             return [(how, x)]
         return one(st, ("resp", r[1], r[2] + tuple(flat(m)), r[3]))
+    if how == "submsg" and m[0] == "call" and m[1].endswith("SubMsg::new") and len(m[2]) == 1:
+        how, m = "msg", m[2][0]     # add_submessage(SubMsg::new(x)) is add_message(x)
     return one(st, ("resp", r[1], r[2] + ((how, m),), r[3]))
 
 
